@@ -158,8 +158,18 @@ def verify(contract, repo: Repo, spec_override=None) -> VerifyResult:
         pre = {k: deep_copy(v) for k, v in env.items()}
         call_env = dict(env)
         self_obj = call_env.pop("self", None) if fi.cls is not None and not fi.is_static else None
+        pos_args = []
+        va = fi.node.args.vararg
+        if va is not None and va.arg in call_env:
+            pos_args = list(call_env.pop(va.arg))
+            names = [x.arg for x in fi.node.args.posonlyargs + fi.node.args.args if x.arg != "self"]
+            lead = [call_env.pop(n) for n in names if n in call_env]
+            pos_args = lead + pos_args
+        kwa = fi.node.args.kwarg
+        if kwa is not None and kwa.arg in call_env and isinstance(call_env[kwa.arg], dict):
+            call_env.update(call_env.pop(kwa.arg))
         try:
-            ret = I.call_fi(fi, [], call_env, self_obj=self_obj)
+            ret = I.call_fi(fi, pos_args, call_env, self_obj=self_obj)
             outcome = ("return", ret)
         except PyRaise as e:
             outcome = ("raise", e.etype)
